@@ -11,7 +11,7 @@
 (*                                                                         *)
 (* Clauses: one-instance, scope-<field>, body-order, body-bytes,           *)
 (* body-beyond, after-end, end-iff-complete, body-incomplete,              *)
-(* instance-missing.                                                       *)
+(* instance-missing, upload-starved.                                       *)
 (***************************************************************************)
 EXTENDS Obs
 
@@ -109,6 +109,10 @@ Clauses(o, ev, o2) ==
                     /\ App(o, a).started = 0
             IN (IF \E a \in DOMAIN o.apps : Incomplete(a) THEN <<F("body-incomplete", "")>> ELSE <<>>)
             \o (IF \E a \in DOMAIN o.reqs : Missing(a) THEN <<F("instance-missing", "")>> ELSE <<>>)
+            \* HTTP/2: the client cannot complete the body because the server keeps back flow-control
+            \* credit for data it has already consumed
+            \o (IF ~o.winddown /\ \E a \in DOMAIN o.stalled : UploadStarved(o, a)
+                THEN <<F("upload-starved", StarvedBy(o, CHOOSE a \in DOMAIN o.stalled : UploadStarved(o, a)))>> ELSE <<>>)
       [] OTHER -> <<>>
 
 MInit == [o |-> OInit, fails |-> <<>>]
